@@ -76,6 +76,19 @@ def run(ctx):
         "a template's root render function yields the piece list observed through Template.generate",
     ]
     ctx.proof("C10")
+    # translator tie (facts): the vocabulary of TemplateStream's methods in the current source is the one
+    # the model was written against — piece-count flushing only, one encoder per dump
+    import sys
+    sys.path.insert(0, os.path.join(lib.ROOT, "gen"))
+    import stream_facts
+    try:
+        vtext, fs = stream_facts.emit(lib.SRC)
+        ok, out = ctx.coq_obligation("Gen_stream", vtext, n_obligations=2)
+        ctx.extra["stream_vocabulary_facts"] = len(fs)
+        if ok:
+            ctx.trusted.append("Gen_stream (vocabulary of TemplateStream = expected): " + " ".join(out.split()))
+    except stream_facts.Untranslatable as e:
+        ctx.broken.append(f"translator gen/stream_facts.py: TemplateStream left the translatable shape: {e}")
 
     # ---------------- K-rt: model vs TemplateStream
     L = ctx.size(6, 8)
@@ -127,6 +140,35 @@ def run(ctx):
         else:
             ctx.validated()
 
+    # ---------------- K-rt with long pieces: the chunking depends on the emptiness of pieces only, never on
+    # their length.  The model runs on the shape (one letter per piece); the real stream on pieces whose lengths
+    # are powers of two up to 2 MiB and their neighbours.
+    from jinja2.environment import TemplateStream
+    LENS = [0, 1, 2, 255, 256, 1023, 1024, 4095, 4096, 4097, 8192, 16384, 65535, 65536, 65537, 131072, 2 ** 20, 2 ** 21]
+    big = []
+    for _ in range(ctx.size(120, 1200)):
+        n = ctx.rng.randint(3, 12)
+        big.append((ctx.rng.randint(2, 6), [ctx.rng.choice(LENS) if ctx.rng.random() < 0.7 else 0 for _ in range(n)]))
+    letters = "abcdefghijklmnopqrstuvwxyz"
+    blines = [f"{size} " + " ".join((letters[i] if ln else "-") for i, ln in enumerate(lens)) for size, lens in big]
+    for (size, lens), m in zip(big, ctx.driver("stream", blines)):
+        pieces = [letters[i] * ln for i, ln in enumerate(lens)]
+        st = TemplateStream(iter(pieces))
+        st.enable_buffering(size)
+        chunks = list(st)
+        mchunks = [c for c in m[2:].split(" R ")[0].split("|")] if m[2:].split(" R ")[0] else []
+        expected = ["".join(pieces[letters.index(ch)] for ch in mc) for mc in mchunks]
+        ctx.case(key=("big", size, tuple(lens)))
+        ctx.count("krt_long_pieces")
+        if chunks != expected:
+            of = oracle_chunks(size, pieces, chunks)
+            ctx.model_mismatch("K-rt TemplateStream._buffered_generator (long pieces)",
+                               {"size": size, "piece_lengths": lens, "chunk_lengths": [len(c) for c in chunks],
+                                "model_chunk_lengths": [len(c) for c in expected]}, str([len(c) for c in expected]),
+                               str([len(c) for c in chunks]), of)
+        else:
+            ctx.validated()
+
     # ---------------- O: every entry point on generated template sets
     n_sets = ctx.size(300, 3000)
     tmpdir = tempfile.mkdtemp(prefix="c10_", dir=lib.BUILD)
@@ -146,6 +188,8 @@ def run(ctx):
                 ts.setdefault(part, "[partial {{ 1 + 1 }}]")
                 ts[main] = ("{% include '" + part + "' without context %}|" + ts[main]
                             + "|{% import '" + part + "' as MM %}{{ MM }}|{% include '" + part + "' without context %}")
+            if idx % 5 == 4 and "extends" not in ts[main]:
+                ts[main] = "\u00e9\u20ac\U0001d11e<" + ts[main]      # text no single-byte codec can encode
             data = g.data() if idx % 7 else {}
             case = {"templates": ts, "data": data, "index": idx, "autoescape": auto}
             w = oracle_entry_points(jinja2, ts, main, data, tmpdir, ctx, auto)
@@ -223,6 +267,37 @@ def oracle_entry_points(jinja2, ts, main, data, tmpdir, ctx, autoescape=False):
         t.stream(**data).dump(sio)
         if sio.getvalue() != ref:
             return "dump(text fp) differs from render()"
+        # file-like targets that only have write(); error handlers; a path without an encoding (utf-8)
+        class W:
+            def __init__(self):
+                self.parts = []
+            def write(self, x):
+                self.parts.append(x)
+        for enc, errors, bufsize in ((None, None, None), (None, None, 3), ("utf-8", "strict", None), ("utf-16", "strict", 2),
+                                     ("ascii", "replace", None), ("ascii", "xmlcharrefreplace", 3), ("latin-1", "ignore", 2),
+                                     ("ascii", "backslashreplace", None)):
+            w_ = W()
+            st = t.stream(**data)
+            if bufsize:
+                st.enable_buffering(bufsize)
+            if enc is None:
+                st.dump(w_)
+                got, want = "".join(w_.parts), ref
+            else:
+                st.dump(w_, encoding=enc, errors=errors)
+                if not all(isinstance(x, bytes) for x in w_.parts):
+                    return f"dump(write-only fp, {enc}) wrote a non-bytes item"
+                got, want = b"".join(w_.parts), ref.encode(enc, errors)
+            if got != want:
+                return f"dump(write-only fp, encoding={enc}, errors={errors}, buffer={bufsize}) differs from render()"
+            bio = io.BytesIO()
+            if enc is not None:
+                t.stream(**data).dump(bio, encoding=enc, errors=errors)
+                if bio.getvalue() != want:
+                    return f"dump(fp, encoding={enc}, errors={errors}) differs from the encoded render()"
+        t.stream(**data).dump(p)
+        if open(p, "rb").read() != ref.encode("utf-8"):
+            return "dump(path) without an encoding is not the utf-8 encoding of render()"
         mod = t.make_module(data)
         if str(mod) != ref:
             return "str(make_module()) differs from render()"
